@@ -464,6 +464,57 @@ func c15Run[T any](c *c15ctx, v, pre, otherVal T, plain any, hasPlain bool, isOp
 	}
 }
 
+// number of record kinds that need no generated fixture (the fixture shapes follow)
+const c15BaseN = 24
+
+// defined scalar types whose JSON form is not the form of their underlying kind
+type c15Level int
+
+var c15LevelNames = [...]string{"low", "mid", "high"}
+
+func (l c15Level) MarshalText() ([]byte, error) { return []byte(c15LevelNames[int(l)%3]), nil }
+func (l *c15Level) UnmarshalText(b []byte) error {
+	for i, n := range c15LevelNames {
+		if n == string(b) {
+			*l = c15Level(i)
+			return nil
+		}
+	}
+	return fmt.Errorf("unknown level %q", b)
+}
+
+type c15Flag bool
+
+func (f c15Flag) MarshalJSON() ([]byte, error) {
+	if f {
+		return []byte(`"yes"`), nil
+	}
+	return []byte(`"no"`), nil
+}
+func (f *c15Flag) UnmarshalJSON(b []byte) error {
+	switch string(b) {
+	case `"yes"`:
+		*f = true
+	case `"no"`:
+		*f = false
+	default:
+		return fmt.Errorf("not a flag: %s", b)
+	}
+	return nil
+}
+
+type c15Code uint8
+
+func (c c15Code) MarshalText() ([]byte, error) { return []byte(fmt.Sprintf("code-%d", uint8(c))), nil }
+func (c *c15Code) UnmarshalText(b []byte) error {
+	var n uint8
+	if _, err := fmt.Sscanf(string(b), "code-%d", &n); err != nil {
+		return fmt.Errorf("not a code: %q", b)
+	}
+	*c = c15Code(n)
+	return nil
+}
+
 func c15Opt[T any](r *sim.Run, defined bool, v T) fp.Option[T] {
 	if defined {
 		return fp.Some(v)
@@ -473,7 +524,7 @@ func c15Opt[T any](r *sim.Run, defined bool, v T) fp.Option[T] {
 
 func execC15(r *sim.Run) {
 	r.Case = "record"
-	kind := r.Choose(21+c15FixN, "type")
+	kind := r.Choose(c15BaseN+c15FixN, "type")
 	def := r.Choose(4, "defined") != 0
 	preDef := r.Choose(2, "preDefined") == 1
 	i1, i2, i3 := r.Choose(2001, "i1")-1000, r.Choose(7, "i2"), r.Choose(1<<20, "i3")
@@ -575,9 +626,28 @@ func execC15(r *sim.Run) {
 		raw := json.RawMessage(raws[i2%len(raws)])
 		v := c15Opt(r, def, raw)
 		c15Run(c, v, c15Opt(r, preDef, json.RawMessage(`"pre"`)), c15Opt(r, true, json.RawMessage(`0`)), any(raw), def, true)
+	case 21:
+		// defined scalar types with their own text / JSON form: Some(v) must encode exactly as v does
+		c.name = "Option[defined int with MarshalText]"
+		lv := c15Level(i2 % 3)
+		v := c15Opt(r, def, lv)
+		c15Run(c, v, c15Opt(r, preDef, c15Level(2)), c15Opt(r, true, c15Level(1)), any(lv), def, true)
+		c15Null(c, v, def)
+	case 22:
+		c.name = "Option[defined bool with MarshalJSON]"
+		fl := c15Flag(i2%2 == 0)
+		v := c15Opt(r, def, fl)
+		c15Run(c, v, c15Opt(r, preDef, c15Flag(true)), c15Opt(r, true, c15Flag(false)), any(fl), def, true)
+		c15Null(c, v, def)
+	case 23:
+		c.name = "Option[defined uint8 with MarshalText]"
+		cd := c15Code(i2)
+		v := c15Opt(r, def, cd)
+		c15Run(c, v, c15Opt(r, preDef, c15Code(9)), c15Opt(r, true, c15Code(1)), any(cd), def, true)
+		c15Null(c, v, def)
 	default:
-		if kind >= 21 {
-			c15Fixture(c, kind-21, s1, s2, i1, i3, preDef)
+		if kind >= c15BaseN {
+			c15Fixture(c, kind-c15BaseN, s1, s2, i1, i3, preDef)
 			return
 		}
 		c.name = "*Option[int] inside struct pointer"
